@@ -328,7 +328,23 @@ def edit_inplace(g, gd, rng):
     bi = [list(e) for e in gd["bi"]]
     order = RG.make(nodes, [tuple(e) for e in di], []).topological_order()
     pos = {v: i for i, v in enumerate(order)}
-    op = rng.choice(["add_di", "add_di", "add_bi", "add_bi", "del_di", "del_bi", "add_node"])
+    op = rng.choice(["add_di", "add_di", "add_bi", "add_bi", "del_di", "del_bi", "add_node", "new_by_bi", "new_by_di"])
+    if op in ("new_by_bi", "new_by_di") and (len(nodes) >= 8 or not nodes):
+        op = "add_bi"
+    if op in ("new_by_bi", "new_by_di"):
+        # an edge mutator introduces a node the graph did not have (no add_node call)
+        new = next(f"V{i}" for i in range(30) if f"V{i}" not in nodes)
+        old = rng.choice(nodes)
+        if op == "new_by_bi":
+            pair = [old, new] if rng.random() < 0.5 else [new, old]
+            g.add_undirected_edge(Variable(pair[0]), Variable(pair[1]))
+            bi.append(pair)
+        else:
+            pair = [old, new] if rng.random() < 0.5 else [new, old]
+            g.add_directed_edge(Variable(pair[0]), Variable(pair[1]))
+            di.append(pair)
+        nodes.append(new)
+        return {"nodes": nodes, "di": di, "bi": bi, "hostile": "edited"}
     if op == "add_di" and len(nodes) >= 2:
         a, b = rng.sample(nodes, 2)
         if pos[a] > pos[b]:
